@@ -38,3 +38,8 @@ type (
 	service = Obj
 	ok      = Obj
 )
+
+// Reason is a named string type: its constants are convertible to string, not assignable to it (a `%todo(TodoReason)%` message).
+type Reason string
+
+const TodoReason Reason = "reason given as a typed constant"
